@@ -456,7 +456,9 @@ var c20Templates = []string{"http://u:p@h:81/p/q?a=b&c=d#f", "foo://u@h/p?q#f", 
 
 // c20Slots: the repeated unit goes into one structural position ("{}") of a URL.
 var c20Slots = []string{"http://{}@h/", "http://u:{}@h/", "http://{}/", "http://a{}b/", "http://h{}.com/p", "http://h:{}/", "http://h/{}", "http://h/p{}q", "http://h/?{}", "http://h/?a={}", "http://h/?{}=b", "http://h/#{}",
-	"foo:{}", "foo://{}/", "foo://u:{}@h/", "foo://h/{}?q", "file:///{}", "file://{}/p", "{}", "//{}/p", "/{}", "?{}", "#{}", "{}://h/", "http://[{}]/", "http:{}h/", "ws://h/{}/../{}"}
+	"foo:{}", "foo://{}/", "foo://u:{}@h/", "foo://h/{}?q", "file:///{}", "file://{}/p", "{}", "//{}/p", "/{}", "?{}", "#{}", "{}://h/", "http://[{}]/", "http:{}h/", "ws://h/{}/../{}",
+	// behind a '%' (units like "25" then nest escapes)
+	"http://h/%{}41", "http://h/?a=%{}41", "http://h/#%{}41", "http://%{}61.com/"}
 
 func Gen20(t *rapid.T) Family20 {
 	tpl := gen.Pick(t, "template", c20Templates)
